@@ -25,6 +25,7 @@ func init() {
 		Rule{ID: "R15d", Doc: "refusal => REFUSED/503/close, never forwarded", Floor: 8, Run: r15d},
 		Rule{ID: "R15e", Doc: "only the client limiter is keyed by (masked) address", Floor: 5, Run: r15e},
 		Rule{ID: "R15f", Doc: "bucket garbage collection only drops idle buckets", Floor: 3, Run: r15f},
+		Rule{ID: "R15g", Doc: "limiter options are wired from the same-named configuration fields", Floor: 3, Run: rWiring("app/router", "internal/limiter")},
 	)
 }
 
@@ -554,7 +555,31 @@ func r15d(c *core.Ctx) {
 				continue
 			}
 			for _, rb := range refuseBlocks {
-				via := refusalAction(c, ex.action)
+				via0 := refusalAction(c, ex.action)
+				// the action may live in a helper: a call of a module function counts when every path through the
+				// helper performs it
+				var via func(in ssa.Instruction) bool
+				depth := 0
+				via = func(in ssa.Instruction) bool {
+					if via0(in) {
+						return true
+					}
+					call, isCall := in.(*ssa.Call)
+					if !isCall || depth > 2 {
+						return false
+					}
+					f := core.StaticCallee(call)
+					if f == nil || f.Blocks == nil || !core.ModuleFn(f) {
+						return false
+					}
+					depth++
+					defer func() { depth-- }()
+					f0 := f.Blocks[0].Instrs[0]
+					if via(f0) {
+						return true
+					}
+					return core.Reach(f, f0, core.IsExit, via) == nil
+				}
 				var first ssa.Instruction = rb.Instrs[0]
 				ok := via(first)
 				if !ok {
